@@ -32,13 +32,22 @@ use rusqlite::{Connection, ffi, types::ValueRef};
 use secrecy::SecretVec;
 use serde_json::{Value, json};
 use zcash_client_backend::data_api::{
-    AccountBirthday, AccountPurpose, OutputLockStore, WalletCommitmentTrees, WalletRead, WalletWrite,
+    AccountBirthday, AccountPurpose, OutputLockStore, SentTransaction, SentTransactionOutput, WalletCommitmentTrees, WalletRead, WalletWrite,
     chain::{ChainState, CommitmentTreeRoot, scan_cached_blocks},
     TransactionStatus,
     scanning::ScanPriority,
-    wallet::ConfirmationsPolicy,
+    testing::single_output_change_strategy,
+    wallet::{
+        ConfirmationsPolicy, SpendingKeys, TargetHeight, create_proposed_transactions, decrypt_and_store_transaction, propose_transfer,
+        input_selection::{GreedyInputSelector, SpendPolicy},
+    },
 };
-use zcash_client_backend::wallet::{LockOwner, OutputRef};
+use zcash_client_backend::wallet::{LockOwner, Note, OutputRef, OvkPolicy, Recipient};
+use zcash_client_backend::{TransferType, decrypt_transaction, fees::StandardFeeRule};
+use zcash_keys::keys::{UnifiedFullViewingKey, UnifiedSpendingKey};
+use zcash_primitives::transaction::Transaction;
+use zcash_protocol::ShieldedPool;
+use shardtree::store::ShardStore as _;
 use zcash_client_sqlite::{AccountUuid, WalletDb, util::testing::FixedClock, wallet::init::init_wallet_db};
 use zcash_primitives::{block::BlockHash, transaction::TxId};
 use zcash_protocol::{
@@ -98,11 +107,44 @@ fn short(h: &blake2b_simd::Hash) -> String {
     hex::encode(&h.as_bytes()[..10])
 }
 
+/// The result of one canonical dump: digest of the whole, one digest per table, and the cross-table facts
+/// (`invariants`) computed in the same read transaction.
+struct Dump {
+    dig: String,
+    per: BTreeMap<String, String>,
+    inv: Value,
+}
+
+/// The facts of a content nothing is known about (no dump could be taken).
+fn inv_unknown() -> Value {
+    json!({"unknown": true})
+}
+
+/// Cross-table facts of a committed wallet database (the specification's `Sound`): nothing the wallet derived
+/// from scanned blocks lies above the height the scan queue extends to (the wallet's view of the chain tip;
+/// vacuous while the queue is empty).  Scanning a block extends the queue over it before anything else is
+/// stored for it; a truncation / rewind trims the queue, un-mines the transactions, truncates the trees and
+/// deletes the block rows and tx locators above the height in one database transaction.
+fn invariants(conn: &Connection) -> Result<Value, String> {
+    const TIP: &str = "(SELECT MAX(block_range_end) - 1 FROM scan_queue)";
+    let q = |sql: String| -> Result<bool, String> { conn.query_row(&sql, [], |r| r.get::<_, bool>(0)).map_err(|e| e.to_string()) };
+    Ok(json!({
+        "blocks_le_tip": q(format!("SELECT NOT EXISTS (SELECT 1 FROM blocks WHERE height > {TIP})"))?,
+        "checkpoints_le_tip": q(format!(
+            "SELECT NOT EXISTS (SELECT 1 FROM sapling_tree_checkpoints WHERE checkpoint_id > {TIP})
+                AND NOT EXISTS (SELECT 1 FROM orchard_tree_checkpoints WHERE checkpoint_id > {TIP})
+                AND NOT EXISTS (SELECT 1 FROM ironwood_tree_checkpoints WHERE checkpoint_id > {TIP})"
+        ))?,
+        "mined_le_tip": q(format!("SELECT NOT EXISTS (SELECT 1 FROM transactions WHERE mined_height > {TIP})"))?,
+        "locators_le_tip": q(format!("SELECT NOT EXISTS (SELECT 1 FROM tx_locator_map WHERE block_height > {TIP})"))?,
+    }))
+}
+
 /// Every table (rows sorted by their full content, random identifiers blanked), read in one
-/// transaction. Returns the digest of the whole and one digest per table.
-fn dump(conn: &Connection) -> Result<(String, BTreeMap<String, String>), String> {
+/// transaction. Returns the digest of the whole, one digest per table and the cross-table facts.
+fn dump(conn: &Connection) -> Result<Dump, String> {
     conn.execute_batch("BEGIN").map_err(|e| format!("begin: {e}"))?;
-    let r = dump_in_txn(conn);
+    let r = dump_in_txn(conn).and_then(|(dig, per)| Ok(Dump { dig, per, inv: invariants(conn)? }));
     let _ = conn.execute_batch("COMMIT");
     r
 }
@@ -201,13 +243,14 @@ fn summary(conn: &Connection, net: Net) -> String {
     }
 }
 
-/// What a reader sees of the database at this moment: canonical dump digest and wallet summary.
-fn observe(conn: &Connection, net: Net) -> (String, String, BTreeMap<String, String>) {
+/// What a reader sees of the database at this moment: canonical dump (digest, per table, cross-table facts) and
+/// wallet summary.
+fn observe(conn: &Connection, net: Net) -> (Dump, String) {
     match dump(conn) {
-        Ok((d, per)) => (d, summary(conn, net), per),
+        Ok(d) => (d, summary(conn, net)),
         Err(e) => {
             let busy = e.contains("locked") || e.contains("busy");
-            (if busy { "busy".into() } else { format!("err:{e}") }, "busy".into(), BTreeMap::new())
+            (Dump { dig: if busy { "busy".into() } else { format!("err:{e}") }, per: BTreeMap::new(), inv: inv_unknown() }, "busy".into())
         }
     }
 }
@@ -320,16 +363,16 @@ impl Probe {
         self.ncrash += 1;
         let dst = self.scratch.join(format!("crash{}.db", self.ncrash));
         copy_db(&self.db_path, &dst);
-        let dig = timed("crash_dump", || {
+        let (dig, inv) = timed("crash_dump", || {
             let c = Connection::open(&dst).expect("open crash image");
             let _ = c.busy_timeout(Duration::ZERO);
             match dump(&c) {
-                Ok((d, _)) => d,
-                Err(e) => format!("err:{e}"),
+                Ok(d) => (d.dig, d.inv),
+                Err(e) => (format!("err:{e}"), inv_unknown()),
             }
         });
         remove_db(&dst);
-        self.ev.push(json!({"a": "crash", "at": at, "dig": dig}));
+        self.ev.push(json!({"a": "crash", "at": at, "dig": dig, "inv": inv}));
     }
 
     /// the progress callback: `true` interrupts the running statement
@@ -353,10 +396,10 @@ impl Probe {
             self.flush();
             if self.observe_at_fault {
                 if let Some(r) = self.reader.as_ref() {
-                    let (d, s, _) = timed("observe_cb", || observe(r, self.net));
+                    let (d, s) = timed("observe_cb", || observe(r, self.net));
                     self.ev.push(json!({"a": "rbegin"}));
-                    self.ev.push(json!({"a": "rread", "kind": "dump", "val": d}));
-                    self.ev.push(json!({"a": "rread", "kind": "summary", "val": s}));
+                    self.ev.push(json!({"a": "rread", "kind": "dump", "val": d.dig, "inv": d.inv}));
+                    self.ev.push(json!({"a": "rread", "kind": "summary", "val": s, "inv": inv_unknown()}));
                     self.ev.push(json!({"a": "rend"}));
                 }
             }
@@ -480,6 +523,27 @@ struct State {
     locked: Vec<u32>,
     /// a pool migration is persisted in the pre-state (variant 1: its preparation is mined in a scanned block)
     has_migration: bool,
+    ufvk: UnifiedFullViewingKey,
+    /// transactions the wallet itself created (each on its own scratch copy of this database: the pre-state has
+    /// never seen them); each spends a note of the wallet and creates a change note (two payments of different
+    /// amounts built independently from the same notes, as when a payment is built again)
+    created: Vec<CreatedTx>,
+    /// `Some((pool, h))`: the pool's note commitment tree retains checkpoints only above height h although the pool
+    /// holds a note with a witness position mined at or below h (the state the crate documents for a pool whose
+    /// post-migration rescan has only reached blocks near the tip): a rewind to h is refused half way
+    refuses_rewind: Option<(Pool, u32)>,
+}
+
+/// A transaction built by `propose_transfer` + `create_proposed_transactions` from the wallet's own notes.
+struct CreatedTx {
+    tx: Transaction,
+    /// the target height it was built for
+    target: u32,
+    fee: Zatoshis,
+    /// the external recipient
+    to: zcash_address::ZcashAddress,
+    /// the pool that funded it (Sapling: mock provers; else a real Orchard proof was made)
+    funded: &'static str,
 }
 
 const PRE_OWNER: [u8; 32] = [0x50; 32];
@@ -537,7 +601,8 @@ fn output_ref(chain: &Chain, note: u32) -> OutputRef {
 
 /// Builds a wallet database file by a short history on the harness chain: `blocks` blocks with
 /// receipts in every pool, spends with change and foreign traffic; the first `scan` are scanned.
-fn build_state(dir: &Path, name: &str, seed: u64, ironwood: bool, wal: bool, blocks: u32, scan: u32, migration: bool) -> State {
+#[allow(clippy::too_many_arguments)]
+fn build_state(dir: &Path, name: &str, seed: u64, ironwood: bool, wal: bool, blocks: u32, scan: u32, migration: bool, with_tx: bool, refuse: Option<Pool>) -> State {
     let mut rng = ChaChaRng::seed_from_u64(seed);
     let net = network(ironwood);
     let file = dir.join(format!("{name}.db"));
@@ -573,7 +638,8 @@ fn build_state(dir: &Path, name: &str, seed: u64, ironwood: bool, wal: bool, blo
             3 => {
                 txs.push(foreign(p));
                 // spend the oldest spendable note, with change
-                if let Some(n) = chain.spendable().first().copied() {
+                // (a long history grinds the change down: notes too small to pay the fabricated fee stay unspent)
+                if let Some(n) = chain.spendable().into_iter().find(|n| { let v = chain.notes[n].value; v - v / 3 > 10_000 }) {
                     let v = chain.notes[&n].value;
                     txs.push(spend(&chain, n, v / 3));
                 }
@@ -581,7 +647,7 @@ fn build_state(dir: &Path, name: &str, seed: u64, ironwood: bool, wal: bool, blo
             4 => {
                 value += 10_000;
                 txs.push(recv(p, value));
-                if let Some(n) = chain.spendable().get(1).copied() {
+                if let Some(n) = chain.spendable().into_iter().filter(|n| chain.notes[n].value > 10_000).nth(1) {
                     txs.push(spend(&chain, n, 0));
                 }
             }
@@ -602,7 +668,11 @@ fn build_state(dir: &Path, name: &str, seed: u64, ironwood: bool, wal: bool, blo
             scan_cached_blocks(&net, &Source(&chain), &mut db, BlockHeight::from(base + 1), &st, scan as usize).expect("scan");
         }
     }
-    let mut st = State { name: name.to_string(), file: file.clone(), net, wal, chain, account, base, scanned_to: base + scan, tip, locked: vec![], has_migration: migration };
+    let ufvk = usk.to_unified_full_viewing_key();
+    let mut st = State {
+        name: name.to_string(), file: file.clone(), net, wal, chain, account, base, scanned_to: base + scan, tip, locked: vec![], has_migration: migration,
+        ufvk, created: vec![], refuses_rewind: None,
+    };
     // two notes are locked already
     let pre: Vec<u32> = lockable_notes(&st).into_iter().rev().take(2).collect();
     if pre.len() == 2 {
@@ -623,9 +693,119 @@ fn build_state(dir: &Path, name: &str, seed: u64, ironwood: bool, wal: bool, blo
         let back = PoolMigrations::for_account(net, clock(), &conn, account).and_then(|m| m.get_migration()).expect("read migration");
         assert!(back.is_some());
     }
+    if let Some(pool) = refuse {
+        // The pool's tree loses every checkpoint at or below h (public API: WalletCommitmentTrees + ShardStore; no
+        // sequence of scans / truncations reaches this state: see notes/c02-report.md), a note of the pool with a
+        // witness position was mined at or below h.
+        let h = base + 4;
+        assert!(
+            st.chain.blocks.range(..=h).flat_map(|(_, b)| b.txs.iter()).flat_map(|t| t.outs.iter()).any(|o| o.note > 0 && o.pool == pool),
+            "the refusing pool holds a note mined at or below the rewind height"
+        );
+        let mut db = wdb(&mut conn, net, seed);
+        let ids: Vec<BlockHeight> = (base..=h).map(BlockHeight::from).collect();
+        match pool {
+            Pool::Sapling => db.with_sapling_tree_mut(|t| { for id in &ids { t.store_mut().remove_checkpoint(id).map_err(shardtree::error::ShardTreeError::Storage)?; } Ok::<_, shardtree::error::ShardTreeError<zcash_client_sqlite::wallet::commitment_tree::Error>>(()) }).map(|_| ()).map_err(|e| format!("{e:?}")),
+            Pool::Orchard => db.with_orchard_tree_mut(|t| { for id in &ids { t.store_mut().remove_checkpoint(id).map_err(shardtree::error::ShardTreeError::Storage)?; } Ok::<_, shardtree::error::ShardTreeError<zcash_client_sqlite::wallet::commitment_tree::Error>>(()) }).map(|_| ()).map_err(|e| format!("{e:?}")),
+            Pool::Ironwood => db.with_ironwood_tree_mut(|t| { for id in &ids { t.store_mut().remove_checkpoint(id).map_err(shardtree::error::ShardTreeError::Storage)?; } Ok::<_, shardtree::error::ShardTreeError<zcash_client_sqlite::wallet::commitment_tree::Error>>(()) }).map(|_| ()).map_err(|e| format!("{e:?}")),
+        }
+        .expect("remove checkpoints");
+        st.refuses_rewind = Some((pool, h));
+    }
     drop(conn);
     assert!(side_files(&file).iter().all(|p| !p.exists()), "pre-state database closed cleanly");
+    if with_tx {
+        st.created = [20_000u64, 35_000].iter().filter_map(|amount| make_tx(dir, &st, &usk, seed, *amount)).collect();
+        assert!(!st.created.is_empty(), "the wallet can create a transaction from the pre-state's notes");
+    }
     st
+}
+
+/// A real wallet-created transaction: on a scratch COPY of the pre-state database the chain is cut back to the
+/// scanned blocks (the pre-state's own tip lies above them: nothing would be spendable), a payment to a foreign
+/// Sapling address is proposed and built, and the raw transaction read back. Funded from Sapling notes if the
+/// wallet has enough of them (every other note is locked on the scratch copy; the Sapling provers are the crates'
+/// mock provers), else from whatever the wallet selects (a real Orchard proof). The pre-state file is not touched.
+fn make_tx(dir: &Path, st: &State, usk: &UnifiedSpendingKey, seed: u64, amount: u64) -> Option<CreatedTx> {
+    let net = st.net;
+    for sapling_only in [true, false] {
+        let scratch = dir.join(format!("{}_tx.db", st.name));
+        copy_db(&st.file, &scratch);
+        let r = (|| -> Result<CreatedTx, String> {
+            let mut conn = open(&scratch);
+            let mut db = wdb(&mut conn, net, seed ^ 0x7c02 ^ amount);
+            db.truncate_to_chain_state(st.chain.state_at(st.scanned_to)).map_err(|e| format!("cut back: {e:?}"))?;
+            if sapling_only {
+                let others: Vec<OutputRef> =
+                    lockable_notes(st).into_iter().filter(|n| st.chain.notes[n].pool != Pool::Sapling && !st.locked.contains(n)).map(|n| output_ref(&st.chain, n)).collect();
+                if !others.is_empty() {
+                    db.lock_outputs(&others, LockOwner::new([0x60; 32]), BlockHeight::from(st.tip + 100)).map_err(|e| format!("lock: {e:?}"))?;
+                }
+            }
+            let to = zcash_keys::address::Address::Sapling(st.chain.foreign.sapling.default_address().1).to_zcash_address(&net);
+            let req = zip321::TransactionRequest::new(vec![zip321::Payment::without_memo(to.clone(), zat(amount))]).map_err(|e| format!("{e:?}"))?;
+            let selector = GreedyInputSelector::new();
+            let change = single_output_change_strategy(StandardFeeRule::Zip317, None, ShieldedPool::Sapling);
+            let prop = propose_transfer::<_, _, _, _, std::convert::Infallible>(
+                &mut db, &net, st.account, &selector, &change, req, ConfirmationsPolicy::MIN, &SpendPolicy::default(), None, None,
+            )
+            .map_err(|e| format!("propose: {e:?}"))?;
+            if prop.steps().len() != 1 {
+                return Err("multi-step proposal".into());
+            }
+            let step = prop.steps().first();
+            let fee = step.balance().fee_required();
+            let funded = match step.shielded_inputs().map(|i| i.notes().iter().all(|n| matches!(n.note(), Note::Sapling(_)))) {
+                Some(true) => "sapling",
+                _ => "mixed",
+            };
+            let target = u32::from(BlockHeight::from(prop.min_target_height()));
+            let ids = create_proposed_transactions::<_, _, std::convert::Infallible, _, std::convert::Infallible, _>(
+                &mut db, &net, &sapling::prover::mock::MockSpendProver, &sapling::prover::mock::MockOutputProver,
+                &SpendingKeys::from_unified_spending_key(usk.clone()), OvkPolicy::Sender, &prop, None,
+            )
+            .map_err(|e| format!("create: {e:?}"))?;
+            let tx = db.get_transaction(*ids.first()).map_err(|e| format!("{e:?}"))?.ok_or("created transaction not retrievable")?;
+            Ok(CreatedTx { tx, target, fee, to, funded })
+        })();
+        remove_db(&scratch);
+        match r {
+            Ok(c) => return Some(c),
+            Err(e) => {
+                if std::env::var("C02_DEBUG").is_ok() {
+                    eprintln!("make_tx({}, sapling_only={sapling_only}): {e}", st.name);
+                }
+            }
+        }
+    }
+    None
+}
+
+/// The outputs of the created transaction as `create_proposed_transactions` would hand them to
+/// `store_transactions_to_be_sent`, rebuilt by hand: what the account's outgoing viewing key recovers is the
+/// payment to the external recipient, what its internal incoming viewing key decrypts is the change.
+fn sent_outputs(s: &State, ct: &CreatedTx) -> Vec<SentTransactionOutput<AccountUuid>> {
+    let ufvks = std::collections::HashMap::from([(s.account, s.ufvk.clone())]);
+    let d = decrypt_transaction(&s.net, None, Some(BlockHeight::from(s.scanned_to)), &ct.tx, &ufvks);
+    let mut outs = vec![];
+    for o in d.sapling_outputs() {
+        let recipient = match o.transfer_type() {
+            TransferType::Outgoing => Recipient::External { recipient_address: ct.to.clone(), output_pool: PoolType::SAPLING },
+            _ => Recipient::InternalShielded { receiving_account: s.account, external_address: None, note: Box::new(Note::Sapling(o.note().clone())) },
+        };
+        outs.push(SentTransactionOutput::from_parts(o.index(), recipient, o.note_value(), Some(o.memo().clone())));
+    }
+    for (list, pt) in [(d.orchard_outputs(), PoolType::ORCHARD), (d.ironwood_outputs(), PoolType::IRONWOOD)] {
+        for o in list {
+            let (note, pool) = *o.note();
+            let recipient = match o.transfer_type() {
+                TransferType::Outgoing => Recipient::External { recipient_address: ct.to.clone(), output_pool: pt },
+                _ => Recipient::InternalShielded { receiving_account: s.account, external_address: None, note: Box::new(Note::Orchard { note, pool }) },
+            };
+            outs.push(SentTransactionOutput::from_parts(o.index(), recipient, zat(note.value().inner()), Some(o.memo().clone())));
+        }
+    }
+    outs
 }
 
 const MIG_TOKEN: [u8; 32] = [0x77; 32];
@@ -784,7 +964,39 @@ fn lockable_notes(s: &State) -> Vec<u32> {
     v
 }
 
+/// Operations on the wallet whose tree refuses the rewind half way (no fault involved): the uninterrupted call is
+/// an Err and must leave the database exactly as it was -- and whatever it returns, what it commits is Consistent.
+fn refused_ops(s: &State) -> Vec<OpDef> {
+    let (_, h) = s.refuses_rewind.expect("state with a refusing tree");
+    let mut v = vec![];
+    // the birthday rewind of a new account (birthday h + 1) is refused after the scan queue was trimmed and the
+    // transactions above h un-mined
+    v.push(opdef("create_account_refused", move |c, s| {
+        let birthday = AccountBirthday::from_parts(s.chain.state_at(h), None);
+        cls(guarded(|| wdb(c, s.net, 15).create_account("second", &SecretVec::new(vec![9u8; 32]), &birthday, None)), |_| String::new())
+    }));
+    v.push(opdef("import_ufvk_refused", move |c, s| {
+        let birthday = AccountBirthday::from_parts(s.chain.state_at(h), None);
+        let usk = UnifiedSpendingKey::from_seed(&s.net, &[0x33u8; 32], zip32::AccountId::ZERO).expect("usk");
+        let ufvk = usk.to_unified_full_viewing_key();
+        cls(guarded(|| wdb(c, s.net, 16).import_account_ufvk("imported", &ufvk, &birthday, AccountPurpose::ViewOnly, None)), |_| String::new())
+    }));
+    v.push(opdef("rewind_witness_refused", move |c, s| {
+        let st = s.chain.state_at(h);
+        cls(guarded(|| wdb(c, s.net, 22).rewind_to_chain_state(st, std::collections::HashSet::new())), |_| String::new())
+    }));
+    // the same wallet accepts an account whose birthday lies above the scanned blocks (nothing to rewind)
+    v.push(opdef("create_account_above", |c, s| {
+        let birthday = AccountBirthday::from_parts(ChainState::empty(BlockHeight::from(s.scanned_to + 2), BlockHash([0; 32])), None);
+        cls(guarded(|| wdb(c, s.net, 15).create_account("second", &SecretVec::new(vec![9u8; 32]), &birthday, None)), |_| String::new())
+    }));
+    v
+}
+
 fn ops_for(s: &State) -> Vec<OpDef> {
+    if s.refuses_rewind.is_some() {
+        return refused_ops(s);
+    }
     if s.has_migration {
         // the wallet with a migration in flight: the store's own writes, and the wallet writes that cascade into it
         let mut v = mig_ops(s);
@@ -903,6 +1115,48 @@ fn ops_common(s: &State) -> Vec<OpDef> {
         v.push(opdef("unlock", move |c, s| cls(guarded(|| wdb(c, s.net, 24).unlock_output(&r, LockOwner::new(PRE_OWNER))), |b| format!("{b}"))));
         v.push(opdef("clear_locks", |c, s| cls(guarded(|| wdb(c, s.net, 24).clear_locked_outputs(s.account)), |n| format!("{n}"))));
     }
+    if !s.created.is_empty() {
+        // a transaction the wallet created elsewhere (this database has never seen it): it spends a note of the
+        // wallet and pays change back to it
+        v.push(opdef("store_decrypted_unmined", |c, s| {
+            let ct = &s.created[0];
+            cls(guarded(|| decrypt_and_store_transaction(&s.net, &mut wdb(c, s.net, 25), &ct.tx, None)), |_| String::new())
+        }));
+        v.push(opdef("store_decrypted_mined", |c, s| {
+            let ct = &s.created[0];
+            let h = BlockHeight::from(s.scanned_to - 1);
+            cls(guarded(|| decrypt_and_store_transaction(&s.net, &mut wdb(c, s.net, 25), &ct.tx, Some(h))), |_| String::new())
+        }));
+        // every created transaction in ONE call (one database transaction for the whole batch)
+        v.push(opdef("store_to_be_sent", |c, s| {
+            let outputs: Vec<Vec<SentTransactionOutput<AccountUuid>>> = s.created.iter().map(|ct| sent_outputs(s, ct)).collect();
+            assert!(outputs.iter().all(|o| o.len() >= 2), "payment and change recovered from every created transaction");
+            let created = time::OffsetDateTime::from_unix_timestamp(1_740_441_600).expect("timestamp");
+            cls(
+                guarded(|| {
+                    let sent: Vec<SentTransaction<AccountUuid>> = s
+                        .created
+                        .iter()
+                        .zip(outputs.iter())
+                        .map(|(ct, outs)| {
+                            SentTransaction::new(
+                                &ct.tx,
+                                created,
+                                TargetHeight::from(ct.target),
+                                s.account,
+                                outs,
+                                ct.fee,
+                                #[cfg(feature = "transparent")]
+                                &[],
+                            )
+                        })
+                        .collect();
+                    wdb(c, s.net, 26).store_transactions_to_be_sent(&sent)
+                }),
+                |_| format!("{}", s.created.len()),
+            )
+        }));
+    }
     let notes: Vec<u32> = lockable_notes(s).into_iter().filter(|n| !s.locked.contains(n)).collect();
     if notes.len() >= 3 {
         let refs: Vec<OutputRef> = notes.iter().take(3).map(|n| output_ref(&s.chain, *n)).collect();
@@ -1014,12 +1268,12 @@ impl Runner<'_> {
         }
         let reader = g.reader.take().unwrap();
         // what is durable now (second connection) and what the writer's own connection sees
-        let (dig, mut sum, per) = timed("observe_end", || observe(&reader, s.net));
+        let (Dump { dig, per, inv }, mut sum) = timed("observe_end", || observe(&reader, s.net));
         if self.sum_kind != "summary" {
             sum = reader_call(&self.sum_kind, &reader, s);
         }
         let wdig = match timed("wdump", || dump(&conn)) {
-            Ok((d, _)) => d,
+            Ok(d) => d.dig,
             Err(e) => format!("err:{e}"),
         };
         let (res, detail) = match &r {
@@ -1046,9 +1300,11 @@ impl Runner<'_> {
                 if Some(i) == last_commit {
                     e["dig"] = json!(dig);
                     e["sum"] = json!(sum);
+                    e["inv"] = inv.clone();
                 } else {
                     e["dig"] = json!("?");
                     e["sum"] = json!("?");
+                    e["inv"] = inv_unknown();
                 }
             }
         }
@@ -1056,7 +1312,7 @@ impl Runner<'_> {
             self.out.emit(e);
         }
         let chg: Vec<&String> = per.iter().filter(|(t, d)| pre.get(*t) != Some(*d)).map(|(t, _)| t).collect();
-        let end = json!({"a": "opend", "res": res, "detail": detail, "auto": auto, "dig": dig, "sum": sum, "wdig": wdig, "chg": chg, "steps": g.steps});
+        let end = json!({"a": "opend", "res": res, "detail": detail, "auto": auto, "dig": dig, "sum": sum, "inv": inv, "wdig": wdig, "chg": chg, "steps": g.steps});
         self.out.emit(&end);
         self.execs += 1;
         self.crash_images += g.ncrash as u64;
@@ -1181,7 +1437,7 @@ fn reader_call(kind: &str, conn: &Connection, s: &State) -> String {
 
 fn run_reader_group(rn: &mut Runner, s: &State, op: &OpDef, kind: &str, quick: bool, rng: &mut ChaChaRng, only_k: Option<u64>) {
     rn.restore(s, false);
-    let (dig, _sum, pre) = {
+    let (Dump { dig, per: pre, inv }, _sum) = {
         let c = open(&rn.run_db);
         observe(&c, s.net)
     };
@@ -1191,7 +1447,7 @@ fn run_reader_group(rn: &mut Runner, s: &State, op: &OpDef, kind: &str, quick: b
         reader_call(kind, &c, s)
     };
     rn.sum_kind = kind.to_string();
-    rn.out.emit(&json!({"a": "reset", "state": s.name, "op": format!("{}@{}", op.name, kind), "wal": s.wal, "dig": dig, "sum": val0}));
+    rn.out.emit(&json!({"a": "reset", "state": s.name, "op": format!("{}@{}", op.name, kind), "wal": s.wal, "dig": dig, "sum": val0, "inv": inv}));
     rn.exec(s, op, "ref", 0, false, false, &pre);
     // counting pass of the read alone
     rn.restore(s, true);
@@ -1250,7 +1506,7 @@ fn run_reader_group(rn: &mut Runner, s: &State, op: &OpDef, kind: &str, quick: b
             unsafe { ffi::sqlite3_progress_handler(reader.handle(), 0, None, std::ptr::null_mut()) };
             v
         };
-        rn.out.emit(&json!({"a": "rread", "kind": "summary", "val": val}));
+        rn.out.emit(&json!({"a": "rread", "kind": "summary", "val": val, "inv": inv_unknown()}));
         rn.out.emit(&json!({"a": "rend"}));
         drop(reader);
         rn.reader_interleavings += 1;
@@ -1264,11 +1520,11 @@ fn run_reader_group(rn: &mut Runner, s: &State, op: &OpDef, kind: &str, quick: b
 
 fn run_group(rn: &mut Runner, s: &State, op: &OpDef, quick: bool, rng: &mut ChaChaRng, only_k: Option<u64>) {
     rn.restore(s, false);
-    let (dig, sum, pre) = {
+    let (Dump { dig, per: pre, inv }, sum) = {
         let c = open(&rn.run_db);
         observe(&c, s.net)
     };
-    rn.out.emit(&json!({"a": "reset", "state": s.name, "op": op.name, "wal": s.wal, "dig": dig, "sum": sum}));
+    rn.out.emit(&json!({"a": "reset", "state": s.name, "op": op.name, "wal": s.wal, "dig": dig, "sum": sum, "inv": inv}));
     // the uninterrupted run: defines the complete post-state, the number of VM steps, the statements
     let reference = rn.exec(s, op, "ref", 0, true, true, &pre);
     if std::env::var("C02_STMTS").is_ok() {
@@ -1318,16 +1574,20 @@ fn main() {
     // journal); thorough: these fixed modes plus, below, each wallet in the other mode
     let (wa, wb, wm) = if quick { (seed % 2 == 0, seed % 2 == 1, (seed / 2) % 2 == 1) } else { (false, true, false) };
     let states = vec![
-        build_state(&work, "A", seed.wrapping_mul(1000) + 1, false, wa, 30, 10, false),
-        build_state(&work, "B", seed.wrapping_mul(1000) + 2, true, wb, 28, 12, false),
-        build_state(&work, "M", seed.wrapping_mul(1000) + 3, true, wm, 20, 14, true),
+        build_state(&work, "A", seed.wrapping_mul(1000) + 1, false, wa, 30, 10, false, true, None),
+        build_state(&work, "B", seed.wrapping_mul(1000) + 2, true, wb, 28, 12, false, true, None),
+        build_state(&work, "M", seed.wrapping_mul(1000) + 3, true, wm, 20, 14, true, false, None),
+        // a wallet whose Sapling (odd seeds: Orchard) tree refuses the birthday rewind of a new account half way
+        build_state(&work, "R", seed.wrapping_mul(1000) + 4, seed % 3 == 0, (seed / 2) % 2 == 0, 24, 16, false, false, Some(if seed % 2 == 0 { Pool::Sapling } else { Pool::Orchard })),
     ];
     let mut states = states;
     if !quick {
         // the other journal mode of each wallet
-        states.push(build_state(&work, "Aw", seed.wrapping_mul(1000) + 1, false, true, 30, 10, false));
-        states.push(build_state(&work, "Br", seed.wrapping_mul(1000) + 2, true, false, 28, 12, false));
-        states.push(build_state(&work, "Mw", seed.wrapping_mul(1000) + 3, true, true, 20, 14, true));
+        states.push(build_state(&work, "Aw", seed.wrapping_mul(1000) + 1, false, true, 30, 10, false, true, None));
+        states.push(build_state(&work, "Br", seed.wrapping_mul(1000) + 2, true, false, 28, 12, false, true, None));
+        states.push(build_state(&work, "Mw", seed.wrapping_mul(1000) + 3, true, true, 20, 14, true, false, None));
+        // the other pool refusing, the other journal mode
+        states.push(build_state(&work, "Ro", seed.wrapping_mul(1000) + 4, seed % 3 != 0, (seed / 2) % 2 != 0, 24, 16, false, false, Some(if seed % 2 == 0 { Pool::Orchard } else { Pool::Sapling })));
     }
     let shard: (usize, usize) = std::env::var("C02_SHARD").ok().and_then(|s| {
         let (a, b) = s.split_once('/')?;
@@ -1360,21 +1620,22 @@ fn main() {
             "scan12" => 50,
             "scan3" => 28,
             "scan1" => 20,
-            "create_account" | "import_hd" | "import_ufvk" => 16,
+            "create_account" | "import_hd" | "import_ufvk" | "create_account_above" => 16,
+            "create_account_refused" | "import_ufvk_refused" | "rewind_witness_refused" | "store_decrypted_unmined" | "store_decrypted_mined" | "store_to_be_sent" => 6,
             "delete_account" | "rewind_reset_birthday" | "truncate_chain_state" | "truncate" | "rewind" => 7,
             _ => 2,
         }
     };
     let mut all: Vec<(usize, String)> = vec![];
     let reader_ops = |s: &State| -> Vec<&'static str> {
-        if s.has_migration { vec!["mig_terminal_superseded"] } else if s.wal { vec!["scan3", "truncate", "tip_up"] } else { vec!["scan3", "truncate"] }
+        if s.refuses_rewind.is_some() { vec![] } else if s.has_migration { vec!["mig_terminal_superseded"] } else if s.wal { vec!["scan3", "truncate", "tip_up"] } else { vec!["scan3", "truncate"] }
     };
     // quick: operations other than scans / truncations / rewinds / locks / tip updates run on one of the
     // wallets A, B per run, chosen by the seed (every operation runs on at least one pre-state in every run)
     const ON_ALL: &[&str] = &["scan1", "scan3", "scan12", "truncate", "rewind", "lock3", "lock_fail", "tip_up", "subtree_roots_gap", "mig_replace"];
     let only_set = only.is_some();
     let rotated_out = |s: &State, opname: &str| -> bool {
-        if !quick || only_set || s.has_migration || ON_ALL.contains(&opname) {
+        if !quick || only_set || s.has_migration || s.refuses_rewind.is_some() || ON_ALL.contains(&opname) {
             return false;
         }
         let h = blake2b_simd::Params::new().hash_length(8).hash(opname.as_bytes());
